@@ -1,0 +1,128 @@
+//! Bench lab: runs a `Bencher` closure over a context built from given
+//! options under the virtual clock (1 tick = 1 ps) and returns the statistics.
+
+use std::num::{NonZeroU64, NonZeroUsize};
+use std::sync::atomic::Ordering::SeqCst;
+
+use crate::{
+    alloc::AllocOp,
+    benchmark::{BenchContext, BenchOptions},
+    config::Action,
+    counter::KnownCounterKind,
+    divan::SharedContext,
+    time::Timer,
+    util::thread::ThreadPool,
+    Bencher,
+};
+
+use super::vclock;
+
+/// Ticks per second of the virtual counter: one tick is one picosecond.
+pub const FREQUENCY: u64 = 1_000_000_000_000;
+
+fn timer() -> Timer {
+    Timer::Tsc { frequency: NonZeroU64::new(FREQUENCY).unwrap() }
+}
+
+/// Enables the virtual clock and performs the two process-wide, cached
+/// calibrations under it: `Timer::precision()` on a clock advancing `step`
+/// ticks per read (so the precision is `step` ps) and `bench_overheads()` on a
+/// frozen clock (so every overhead is 0). Returns the precision in ps.
+pub fn calibrate(step: u64) -> u128 {
+    vclock::reset();
+    vclock::ENABLED.store(true, SeqCst);
+    vclock::READ_STEP.store(step, SeqCst);
+    let precision = timer().precision().picos;
+    vclock::READ_STEP.store(0, SeqCst);
+    let _ = timer().bench_overheads();
+    vclock::reset();
+    precision
+}
+
+/// `[fastest, slowest, median, mean]`
+pub type Set<T> = [T; 4];
+
+#[derive(Debug, Default)]
+pub struct LabStats {
+    pub sample_count: u32,
+    pub iter_count: u64,
+    pub time: Set<u128>,
+    /// `(count, size)`
+    pub max_alloc: (Set<f64>, Set<f64>),
+    /// Per `[grow, shrink, alloc, dealloc]`: `(count, size)`.
+    pub alloc_tallies: [(Set<f64>, Set<f64>); 4],
+    /// Per `[bytes, chars, cycles, items]`.
+    pub counts: [Option<Set<u64>>; 4],
+}
+
+#[derive(Debug, Default)]
+pub struct LabOut {
+    pub did_run: bool,
+    /// `None` in test mode.
+    pub stats: Option<LabStats>,
+}
+
+/// The pools live as long as the process so that worker threads are reused
+/// across lab runs (one context per action).
+static BENCH_CTX: std::sync::OnceLock<SharedContext> = std::sync::OnceLock::new();
+static TEST_CTX: std::sync::OnceLock<SharedContext> = std::sync::OnceLock::new();
+
+/// Runs `f` with a `Bencher` built from `options` on `threads` threads.
+pub fn bench_lab(
+    is_test: bool,
+    options: &BenchOptions<'_>,
+    threads: usize,
+    f: &dyn Fn(Bencher),
+) -> LabOut {
+    let shared = if is_test {
+        TEST_CTX.get_or_init(|| SharedContext {
+            action: Action::Test,
+            timer: timer(),
+            thread_pool: ThreadPool::new(),
+        })
+    } else {
+        BENCH_CTX.get_or_init(|| SharedContext {
+            action: Action::Bench,
+            timer: timer(),
+            thread_pool: ThreadPool::new(),
+        })
+    };
+    let mut ctx =
+        BenchContext::new(shared, options, NonZeroUsize::new(threads).unwrap());
+    f(Bencher::new(&mut ctx));
+
+    let did_run = ctx.did_run;
+    // Same condition as `run_bench_entry`.
+    if !(did_run && shared.action.is_bench()) {
+        return LabOut { did_run, stats: None };
+    }
+
+    let st = ctx.compute_stats();
+    let set = |s: &crate::stats::StatsSet<f64>| {
+        [s.fastest, s.slowest, s.median, s.mean]
+    };
+    let ops = [AllocOp::Grow, AllocOp::Shrink, AllocOp::Alloc, AllocOp::Dealloc];
+    LabOut {
+        did_run,
+        stats: Some(LabStats {
+            sample_count: st.sample_count,
+            iter_count: st.iter_count,
+            time: [
+                st.time.fastest.picos,
+                st.time.slowest.picos,
+                st.time.median.picos,
+                st.time.mean.picos,
+            ],
+            max_alloc: (set(&st.max_alloc.count), set(&st.max_alloc.size)),
+            alloc_tallies: ops.map(|op| {
+                let t = st.alloc_tallies.get(op);
+                (set(&t.count), set(&t.size))
+            }),
+            counts: KnownCounterKind::ALL.map(|k| {
+                st.get_counts(k).map(|s| {
+                    [s.fastest as u64, s.slowest as u64, s.median as u64, s.mean as u64]
+                })
+            }),
+        }),
+    }
+}
